@@ -139,7 +139,7 @@ def repo_hash(extra=""):
     h = hashlib.sha256()
     fs = sorted(glob.glob(os.path.join(REPO, "src", "*.h")) + glob.glob(os.path.join(REPO, "src", "*.cpp")) +
                 glob.glob(os.path.join(REPO, "src", "bin", "*.cpp")) + glob.glob(os.path.join(VERIF, "harness/cpp/*")) +
-                glob.glob(os.path.join(VERIF, "harness/cppw/*")))
+                glob.glob(os.path.join(VERIF, "harness/cppw/*")) + glob.glob(os.path.join(VERIF, "harness/cppt/*")))
     for f in fs:
         h.update(f.encode()); h.update(open(f, "rb").read())
     h.update(extra.encode())
@@ -157,7 +157,7 @@ def build_impl(variant="san", tools=False):
     flags = BASEFLAGS + " " + VARIANTS[variant]
     key = variant + "-" + repo_hash(flags)
     d = os.path.join(CACHE, key)
-    res = {"dir": d, "drv": os.path.join(d, "drv"), "drvw": os.path.join(d, "drvw")}
+    res = {"dir": d, "drv": os.path.join(d, "drv"), "drvw": os.path.join(d, "drvw"), "drvt": os.path.join(d, "drvt")}
     tool_names = ["cdns_merge", "cdns_itemcount", "cdns_blocks", "cdns_items", "cdns_preamble"]
     for t in tool_names: res[t] = os.path.join(d, t)
     stamp = os.path.join(d, "OK" + ("_tools" if tools else ""))
@@ -169,7 +169,10 @@ def build_impl(variant="san", tools=False):
     jobs = []
     for s in libsrc:
         jobs.append((s, os.path.join(d, "lib_" + os.path.basename(s)[:-4] + ".o"), ""))
-    jobs.append((os.path.join(VERIF, "harness/cpp/drv.cpp"), os.path.join(d, "drv.o"), "-fno-access-control"))
+    if variant != "tsan":
+        jobs.append((os.path.join(VERIF, "harness/cpp/drv.cpp"), os.path.join(d, "drv.o"), "-fno-access-control"))
+    else:
+        jobs.append((os.path.join(VERIF, "harness/cppt/drvt.cpp"), os.path.join(d, "drvt.o"), ""))
     if variant == "plain":
         jobs.append((os.path.join(VERIF, "harness/cppw/drvw.cpp"), os.path.join(d, "drvw.o"), ""))
     if tools:
@@ -186,7 +189,10 @@ def build_impl(variant="san", tools=False):
             raise CheckError("compile failed: %s\n%s" % (j[0], out[-3000:]))
     libobjs = " ".join(j[1] for j in jobs if os.path.basename(j[1]).startswith("lib_"))
     link = "g++ %s %%s %s -o %%s -lz -llzma -lpthread" % (VARIANTS[variant], libobjs)
-    sh(link % (os.path.join(d, "drv.o"), res["drv"]), check=True, timeout=600)
+    if variant != "tsan":
+        sh(link % (os.path.join(d, "drv.o"), res["drv"]), check=True, timeout=600)
+    else:
+        sh(link % (os.path.join(d, "drvt.o"), res["drvt"]), check=True, timeout=600)
     if variant == "plain":
         sh((link % (os.path.join(d, "drvw.o"), res["drvw"])) + " -ldl", check=True, timeout=600)
     if tools:
